@@ -254,6 +254,17 @@ def render_val(v):
     return repr(v)
 
 
+def has_dup_key(t):
+    if t[0] in ("leaf", "unm"):
+        return False
+    if t[0] in ("list", "tuple"):
+        return any(has_dup_key(x) for x in t[1])
+    if t[0] == "dict":
+        ks = [k for k, _ in t[1]]
+        return len(set(ks)) != len(ks) or any(has_dup_key(x) for _, x in t[1])
+    return any(has_dup_key(x) for x in t[2]) or any(has_dup_key(x) for _, x in t[3])
+
+
 def gen_case(rng, unm_choices=(0, 0, 0.2)):
     ids = []
     UNM[0] = rng.choice(unm_choices)
@@ -490,6 +501,7 @@ def check_part(ctx, n, label, unm_choices=(0, 0, 0.2)):
         stats["dict_in_container"] += "{" in text[1:]
         stats["call_in_container"] += any(nm + "(" in text[1:] for nm in NAME2CLS)
         stats["changed"] += not veq(tree_value(c["tree"]), c["new"])
+        stats["repeated_key"] += has_dup_key(c["tree"])
         why = oracle(c, o, label)
         if why:
             ctx.report(f"{label} oracle (nested value): {why[0]}: {text} observed {render_val(c['new'])} flags {c['flags']} -> {o.get('arg')}",
